@@ -12,15 +12,15 @@ LEVEL_NOTE = ("Trusted base: the reference model in harness/src/alu.rs + refexec
 
 # id -> (technique, level text, design ref)
 CHECKS = {
- "C01": ("bounded-exhaustive enumeration of operand values x flag words x operand forms on the real Preprocessor+Interpreter, compared with a reference ALU (explicit-state, depth 1); plus exhaustive instruction sequences (histories) of depth 3/4 on one machine and one Interpreter object compared after every step",
+ "C01": ("bounded-exhaustive enumeration of operand values x flag words x operand forms on the real Preprocessor+Interpreter, compared with a reference ALU (explicit-state, depth 1); plus exhaustive instruction sequences (histories) of depth 3/4 on one machine and one Interpreter object compared after every step; plus, by direct calls of the word instruction functions (separate binary), every word operand pair x carry-in in thorough / 2^26 pairs in quick",
          "All 2^16 byte operand pairs x carry x 4 prior flag words, word boundary lattices squared, all values for INC/DEC/NEG, and every operand form of syntax.md are executed on the real pipeline and every post state (13 registers, flags, whole 1 MB) is compared with the reference; thorough adds a 1000-value word lattice squared. Word operands also at 512 non-boundary values and in 8 fixed relations for every 16-bit x. Every sequence of up to 3 (thorough 4) instructions over the property's instructions and a 21-instruction context alphabet (incl. data labels and DS/ES changes) is run as one program and compared with the reference after every step.",
          "DESIGN.md section 6 C01"),
 }
 
-CHECKS["C02"] = ("bounded-exhaustive enumeration of values x counts 0..255 x carry x operand forms on the real Preprocessor+Interpreter, compared with a single-bit-step reference (explicit-state, depth 1); plus exhaustive instruction sequences (histories) of depth 3/4 on one machine and one Interpreter object compared after every step",
+CHECKS["C02"] = ("bounded-exhaustive enumeration of values x counts 0..255 x carry x operand forms on the real Preprocessor+Interpreter, compared with a single-bit-step reference (explicit-state, depth 1); plus exhaustive instruction sequences (histories) of depth 3/4 on one machine and one Interpreter object compared after every step; plus, by direct calls of word_and/or/xor/test (separate binary), every word operand pair in thorough / 2^26 pairs in quick",
     "All 256 byte values x all 256 counts x carry-in for the 8 shift/rotate spellings with immediate and CL counts (words: lattice in quick, all 65536 in thorough), all 2^16 byte pairs for AND/OR/XOR/TEST, all values for NOT, and every operand form of syntax.md; every post state compared in full with the reference. Word operands also at 512 non-boundary values and in 8 fixed relations for every 16-bit x. Every sequence of up to 3 (thorough 4) instructions over the property's instructions and a 21-instruction context alphabet (incl. data labels and DS/ES changes) is run as one program and compared with the reference after every step.",
     "DESIGN.md section 6 C02")
-CHECKS["C03"] = ("bounded-exhaustive enumeration of AX/DX:AX x operand (bytes exhaustive, words on boundary lattices + per-divisor overflow boundaries) and of AX x AF x CF for the adjusts, on the real pipeline, plus end-to-end divide-error programs through the real CLI binary; plus exhaustive instruction sequences (histories) of depth 3/4 on one machine and one Interpreter object compared after every step",
+CHECKS["C03"] = ("bounded-exhaustive enumeration of AX/DX:AX x operand (bytes exhaustive, words on boundary lattices + per-divisor overflow boundaries) and of AX x AF x CF for the adjusts, on the real pipeline, plus end-to-end divide-error programs through the real CLI binary; plus exhaustive instruction sequences (histories) of depth 3/4 on one machine and one Interpreter object compared after every step; plus, by direct calls (separate binary), word MUL/IMUL for every AX x operand pair and word DIV/IDIV for every divisor x every DX x 6 AX values in thorough (1/64 of those in quick)",
     "All AL x operand pairs x AH set for byte MUL/IMUL/DIV/IDIV, word lattice cubes and, for each divisor, the dividends around the quotient-overflow boundary, all 2^18 (AX,AF,CF) states for the 8 adjust instructions, every operand form including the implicit registers; outcome (NEXT vs INT 0), AX/DX, CF/OF and the frame are compared with the reference; 8 CLI programs check the divide-error message, line and termination. Word operands also at non-boundary values and in 8 fixed relations for every 16-bit x. Every sequence of up to 3 (thorough 4) instructions over the property's instructions and a 21-instruction context alphabet (incl. data labels and DS/ES changes) is run as one program and compared with the reference after every step.",
     "DESIGN.md section 6 C03")
 CHECKS["C04"] = ("bounded-exhaustive enumeration of address forms x overrides x consumers x register/segment lattices on the real pipeline with address-exact memory markers and a whole-memory diff",
